@@ -113,7 +113,8 @@ func c10Equivalent(typ, a, b string) (same bool, detail string, err error) {
 	grid := "for x := T(-70); x <= 70; x++ { for y := T(-70); y <= 70; y++ {"
 	tdecl := "type T = " + typ
 	if typ == "float64" || typ == "gsxFloat" {
-		grid = "for x := T(-6); x <= 6; x += 0.5 { for y := T(-6); y <= 6; y += 0.5 {"
+		// half units over the range the harness draws its operands (and 3-digit literals' neighbourhood) from
+		grid = "for x := T(-70); x <= 70; x += 0.5 { for y := T(-70); y <= 70; y += 0.5 {"
 	}
 	if typ == "gsxFloat" {
 		tdecl = "type T float64"
